@@ -4,7 +4,7 @@
    States = trees grown one child at a time (the in-memory order is the insertion order, so sorted order and memory
    order differ in many states).  Attribute domains per new child:
      composites  type in CompTypes, locator in {C (2 values), I(NCells cells)}, own grid in Grids
-     components  type "K", locator additionally M (2 shapes), sort key in 2 ranks, material "HT9", temperatures
+     components  type "K", locator additionally M (2 shapes), sort key in 2 ranks, material HT9 / UO2, temperatures
    armi's reactors keep the children of one parent homogeneous (all Components or none): AddChild respects that, because
    Component.__lt__ and ArmiObject.__lt__ are not defined across the two.                                                *)
 EXTENDS Layout
@@ -42,7 +42,9 @@ LocChoices(p, cmp) ==
 Children(p, id) ==
     LET homogeneous(cmp) == \A k \in Ix(t[p].kids) : t[t[p].kids[k]].cmp = cmp
         comps == IF ~homogeneous(TRUE) THEN {} ELSE
-                 {[Base(id, "K", TRUE) EXCEPT !.lk = l.lk, !.loc = l.loc, !.lg = l.lg, !.ck = ck, !.mat = "HT9", !.tmp = <<"25.0", "400.5">>]
+                 {[Base(id, "K", TRUE) EXCEPT !.lk = l.lk, !.loc = l.loc, !.lg = l.lg, !.ck = ck,
+                                             !.mat = IF ck[1] = 2 THEN "UO2" ELSE "HT9",      \* UO2().name = "UraniumOxide": name # class
+                                             !.tmp = <<"25.0", "400.5">>]
                     : l \in LocChoices(p, TRUE), ck \in {<<1, 1>>, <<2, 1>>}}
         boxes == IF ~homogeneous(FALSE) THEN {} ELSE
                  {[Base(id, ty, FALSE) EXCEPT !.lk = l.lk, !.loc = l.loc, !.lg = l.lg, !.grid = G(g)]
